@@ -495,6 +495,8 @@ def compose_case(draw):
     c = draw(derived_case(max_dim=4, wlen=8, intdtype=False))
     # (sampled_from, not integers: integers() is biased towards 0 = the identity hom)
     c["hom"] = draw(st.sampled_from(list(range(len(HOM_NAMES) * 3))))
+    if draw(st.integers(0, 9)) == 0:
+        c["hom"] = HOM_NAMES.index("second_parameter_not_inv")
     if c["n"] == 2 and draw(st.integers(0, 2)) == 0:
         c["hom"] = HOM_NAMES.index("lie.hom.sl2_irrep(%d)" % draw(st.integers(2, 5)))
     if c["kind"] == "complex" and draw(st.integers(0, 3)) == 0:
